@@ -142,8 +142,33 @@ JudgeSweep(ev) ==
       IF exp = got THEN Pass(<<>>)
       ELSE Fail("sweep", (exp \ got), (got \ exp), <<>>))
 
+\* ---- parser.Parse on a code image (C21) --------------------------------------
+\* expected instruction positions: every block (in address order) tiled by 4-byte words
+BlkOrder(image) == SetToSortSeq(1..Len(image), LAMBDA a, b : image[a].off < image[b].off)
+Positions(image) ==
+    FoldLeft(LAMBDA acc, bi : acc \o [k \in 1..((Len(image[bi].bytes) + 3) \div 4) |->
+                                       [off |-> image[bi].off + 4 * (k - 1),
+                                        bytes |-> SubSeq(image[bi].bytes, 4 * k - 3, IF 4 * k <= Len(image[bi].bytes) THEN 4 * k ELSE Len(image[bi].bytes))]],
+             <<>>, BlkOrder(image))
+PosBad(ev, p) == Len(p.bytes) < 4 \/ Decode(ev.variant, HasM(ev), HasA(ev), WBits(p.bytes)) = "invalid"
+InsAsEvent(ev, x) == [variant |-> ev.variant, exts |-> ev.exts, addr |-> Add(ev.addr, FromNat(x.off, 2), 8), bytes |-> x.bytes,
+                      nodes |-> x.nodes, effs |-> x.effs, keys |-> x.keys, csrkey |-> x.csrkey, states |-> x.states,
+                      err |-> FALSE, lname |-> x.lname]
+JudgeCode(ev) ==
+    Let1(Positions(ev.image), LAMBDA ps :
+      Let1(\E i \in 1..Len(ps) : PosBad(ev, ps[i]), LAMBDA fails :
+        IF ev.err # fails THEN Fail("parseerr", [err |-> fails], [err |-> ev.err], <<>>)
+        ELSE IF fails THEN Pass(<<>>)
+        ELSE IF [i \in 1..Len(ev.ins) |-> [off |-> ev.ins[i].off, bytes |-> ev.ins[i].bytes]] # ps
+          THEN Fail("tiling", ps, [i \in 1..Len(ev.ins) |-> [off |-> ev.ins[i].off, bytes |-> ev.ins[i].bytes]], <<>>)
+        ELSE Let1([i \in 1..Len(ev.ins) |-> JudgeSem(InsAsEvent(ev, ev.ins[i]))], LAMBDA js :
+             IF \A i \in 1..Len(js) : js[i].ok THEN Pass(<<>>)
+             ELSE Let1(CHOOSE i \in 1..Len(js) : ~js[i].ok, LAMBDA i :
+                  Fail("effects", [ins |-> i, why |-> js[i].why, v |-> js[i].exp], js[i].got, <<>>)))))
+
 Judge(ev, st) ==
     IF ev.op = "pair" THEN JudgePair(ev)
+    ELSE IF ev.op = "codeparse" THEN (IF ev.panic # "" THEN Fail("panic", "no panic", ev.panic, <<>>) ELSE JudgeCode(ev))
     ELSE IF ev.panic # "" THEN Fail("panic", "no panic", ev.panic, <<>>)
     ELSE IF ev.op = "sweep" THEN JudgeSweep(ev)
     ELSE IF ev.panic # "" THEN Fail("panic", "no panic", ev.panic, <<>>)
